@@ -42,17 +42,39 @@ fn gen_c03(t: &mut Tape, l: &mut Vec<&'static str>) -> Option<Case> {
     gen_standard(t, l, GenOpts::stmt_comments(), true, true)
 }
 fn gen_c06(t: &mut Tape, l: &mut Vec<&'static str>) -> Option<Case> {
-    // clean programs (no comments, redundant parentheses, semicolons or odd spacing), with the width drawn
-    // relative to the program's natural width so that wrapping boundaries are hit deliberately
+    // clean programs (no comments inside expressions, semicolons or odd spacing), with the width drawn relative to
+    // the program's natural width so that wrapping boundaries are hit deliberately. One case in three also carries
+    // redundant parentheses (conditions, sub-expressions, doubled): their removal makes the formatted text narrower
+    // than the text the first run measures, so the width keeps a margin of two columns per parenthesis pair there
     let mode = t.pick(8);
     let k = t.pick(64);
-    let opts = GenOpts { c_before_stmt: true, c_after_stmt_block: true, c_after_stmt_line: true, c_block_end: true, ..GenOpts::clean() };
+    if t.chance(64) {
+        // messy programs (semicolons, odd spacing, CRLF lines, blank lines, redundant parentheses, statement-level
+        // comments) at a width nothing reaches: what the second run could still change is not a layout decision
+        let opts = GenOpts { c_before_stmt: true, c_after_stmt_block: true, c_after_stmt_line: true, c_block_end: true, inner_newlines: false, flat: true, ..GenOpts::plain() };
+        let mut case = gen_standard(t, l, opts, true, false)?;
+        case.cfg.column_width = 100_000 + k;
+        l.push("width:unreachable(messy)");
+        return Some(case);
+    }
+    let parens = t.chance(85);
+    // a third of the programs are one or two short statements: the longest line is then the statement under test, so
+    // that every statement kind meets its own "just fits" boundary (at 9 % failures on the unchanged tree, widths below
+    // the natural width are not in the domain)
+    let small = t.chance(85);
+    let mut opts = GenOpts { c_before_stmt: true, c_after_stmt_block: true, c_after_stmt_line: true, c_block_end: true, redundant_parens: parens, ..GenOpts::clean() };
+    if small {
+        opts.max_stmts = 1 + k % 2;
+        opts.budget = 12;
+        l.push("size:small");
+    }
     let mut case = gen_standard(t, l, opts, true, false)?;
     if let Some(natural) = natural_width(&case) {
         let _ = mode;
-        if case.cfg.column_width < natural {
-            case.cfg.column_width = natural + k % 4;
-            l.push("width:natural+0..3");
+        let margin = if parens { 2 * case.source.matches('(').count() } else { 0 };
+        if case.cfg.column_width < natural + margin || small {
+            case.cfg.column_width = natural + margin + k % 4;
+            l.push(if parens { "width:natural+parens+0..3" } else { "width:natural+0..3" });
         } else {
             l.push("width:roomy-as-drawn");
         }
@@ -124,18 +146,51 @@ pub static C03: E1Prop = E1Prop {
     t2_cases: (20_000, 400_000),
 };
 
+/// Known finding KF-C06-ifexpr-semicolon-multiline-comment: Luau input with a block comment that spans lines directly
+/// after a `;` on the same line
+fn c06_semicolon_multiline_comment(c: &Case) -> Option<&'static str> {
+    if c.cfg.syntax != crate::lex::Syntax::Luau {
+        return None;
+    }
+    let b = c.source.as_bytes();
+    let mut i = 0;
+    while i < b.len() {
+        if b[i] == b';' {
+            let mut j = i + 1;
+            while j < b.len() && (b[j] == b' ' || b[j] == b'\t') {
+                j += 1;
+            }
+            if c.source[j..].starts_with("--[") {
+                // a long-bracket comment: does it close on this line?
+                let rest = &c.source[j + 3..];
+                let level = rest.bytes().take_while(|x| *x == b'=').count();
+                if rest[level..].starts_with('[') {
+                    let close = format!("]{}]", "=".repeat(level));
+                    let body = &rest[level + 1..];
+                    let end = body.find(&close).unwrap_or(body.len());
+                    if body[..end].contains('\n') {
+                        return Some("KF-C06-ifexpr-semicolon-multiline-comment");
+                    }
+                }
+            }
+        }
+        i += 1;
+    }
+    None
+}
+
 pub static C06: E1Prop = E1Prop {
     id: "C06",
     oracle: |c, o, _| oracle::c06(c, o),
-    rule: "T0 + T2 (corpus pairs, all catalogue widths, with inserted statement-level comments) + T1 (clean programs at roomy widths) without range. Oracle: format(format(p,c),c) == format(p,c) byte for byte. Non-trivial: first output differs from the input and has >= 2 lines.",
+    rule: "T0 + T2 (corpus pairs, all catalogue widths, with inserted statement-level comments) + T1 without range: clean programs (single spaces, no semicolons, no comments inside expressions; statement-level comments incl. own-line comments before `end`) at a width >= the program's natural width (natural + 0..3 when the drawn width is smaller); one case in three with redundant parentheses (conditions, sub-expressions, doubled) at natural width + two columns per parenthesis pair + 0..3. One case in four: messy single-line statements (semicolons, odd spacing, CRLF lines, blank lines, redundant parentheses, statement-level comments) at a width nothing reaches (100 000+). Oracle: format(format(p,c),c) == format(p,c) byte for byte. Non-trivial: first output differs from the input and has >= 2 lines.",
     gen_case: gen_c06,
     quick_cases: 150_000,
     thorough_cases: 1_500_000,
     use_t0: true,
     tape_len: 600,
     assumptions: &[],
-    extra: None,
-    exclude: None,
+    extra: Some(crate::enums::c06_extra),
+    exclude: Some(c06_semicolon_multiline_comment),
     raw_oracle: None,
     t2_cases: (20_000, 400_000),
 };
@@ -497,7 +552,8 @@ pub static C11: E1Prop = E1Prop {
 // C07
 
 fn gen_c07(t: &mut Tape, l: &mut Vec<&'static str>) -> Option<Case> {
-    let mode = t.pick(10);
+    let mode = t.pick(12);
+    let tail_choice = t.pick(8);
     let width_mode = t.pick(6);
     let verify = t.chance(64);
     let cut_a = t.pick_wide(4096);
@@ -569,6 +625,20 @@ fn gen_c07(t: &mut Tape, l: &mut Vec<&'static str>) -> Option<Case> {
             }
             l.push("invalid:deleted-slice");
         }
+        10 | 11 => {
+            // cut at a line start and end with an incomplete construct: full_moon accepts some of these tails by
+            // dropping tokens (D44), which hands the formatter a tree whose positions are inconsistent
+            let k = at(cut_b).min(n);
+            let cut = case.source[..k].rfind('\n').map_or(0, |p| p + 1);
+            case.source.truncate(cut);
+            let tails: [&str; 8] = if case.cfg.syntax == crate::lex::Syntax::Luau {
+                ["type Foo =", "local x = if c then", "type T = {", "local v = x ::", "local t: {", "export type U =", "return if a then b else", "local y = { a = if c then"]
+            } else {
+                ["local x =", "return f(", "x = {", "local t = { a = ", "if x then return", "f(function()", "local function g(", "x = a +"]
+            };
+            case.source.push_str(tails[tail_choice]);
+            l.push("invalid:incomplete-tail");
+        }
         _ => l.push("valid"),
     }
     Some(case)
@@ -582,6 +652,11 @@ pub static C07: E1Prop = E1Prop {
         if let Verdict::Fail(d) = &v {
             if d.starts_with("panic:") && oracle::known_panic(d).is_some() && oracle::parses(&c.source, c.cfg.syntax).is_err() {
                 return Verdict::Skip("KF-C07-fullmoon-parser-panic");
+            }
+            // success for text the parser did not consume in full is the dependency's known finding; panics and the
+            // work bound are still judged on such input
+            if d.starts_with("success returned for text that the parser did not consume") {
+                return Verdict::Skip("KF-C07-fullmoon-lossy-parse");
             }
         }
         v
@@ -597,7 +672,7 @@ pub static C07: E1Prop = E1Prop {
         "nesting depth of generated programs is bounded (<= ~12): stack exhaustion at depth ~100 (do-blocks) / ~500 (parentheses) is a recorded finding, observed only in child processes",
     ],
     extra: Some(c07_scaling),
-    exclude: Some(|c| if oracle::parser_drops_tokens(&c.source, c.cfg.syntax) { Some("KF-C07-fullmoon-lossy-parse") } else { None }),
+    exclude: None,
     raw_oracle: Some(|c, o, t| oracle::c07(c, o, t)),
     t2_cases: (20_000, 400_000),
 };
